@@ -14,6 +14,10 @@ def fault_behaviours(backend, faults, handles=("h1",), pre=1, post=2):
             steps.append(dict(f, a="Fault"))
             steps.append({"a": "AV", "h": handles[0], "p": "latest", "body": "small"})
             hs = list(handles) if not other_first else list(reversed(handles))
+            # right after the fault every handle asks for the child of the version the faulted
+            # call was based on: all must get the same answer (added for everybody or for nobody)
+            for hh in hs:
+                steps.append({"a": "GC", "h": hh, "p": "first"})
             for i in range(post):
                 hh = hs[i % len(hs)]
                 steps.append({"a": "GC", "h": hh, "p": "latest"})
@@ -50,7 +54,8 @@ def run(tier):
                                                 "git.add_version.after_meta") for k in ("error", "stop")]
             + [{"cmd": c, "at": n, "after": a} for (c, n) in (("add", 1), ("add", 2), ("commit", 1))
                for a in (False, True)])
-    chain_conform(v, wd, "git-local-faults", "git-local", fault_behaviours("git-local", gitl),
+    gitl_all = gitl + [{"cmd": "commit", "at": 1, "after": a, "kind": "stop"} for a in (False, True)]
+    chain_conform(v, wd, "git-local-faults", "git-local", fault_behaviours("git-local", gitl_all),
                   git_wrap=True)
     gitr = gitl + [{"cmd": c, "at": 1, "after": a} for c in ("push", "ls-remote", "fetch")
                    for a in (False, True)]
@@ -58,8 +63,11 @@ def run(tier):
     gitr += [{"cmd": "push", "at": 1, "after": False,
               "also": [{"cmd": "ls-remote", "at": 1}, {"cmd": "fetch", "at": 1}]},
              {"cmd": "push", "at": 1, "after": False, "also": [{"cmd": "ls-remote", "at": 1}]}]
+    # the process stops at a git command (every later command of the call fails, then restart)
+    stops = [{"cmd": c, "at": 1, "after": a, "kind": "stop"} for c in ("commit", "push") for a in (False, True)]
     if not thorough:     # ~7 s per sequence (x2: restarted and long-lived handle)
         gitr = gitr[1::5] + gitr[-8:-2:3] + gitr[-2:]
+    gitr += stops
     chain_conform(v, wd, "git-remote-faults", "git-remote",
                   fault_behaviours("git-remote", gitr, ("h1", "h2")), git_wrap=True)
     http = [{"at": 1, "after": a} for a in (False, True)]
